@@ -22,6 +22,7 @@ pub fn classify_doer_error(e: &str) -> String {
         ("root '", "RootRead"), ("Error fetching entries", "Walk"), ("Unable to get metadata", "Metadata"),
         ("Unknown file type", "UnknownType"), ("Unable to read symlink target", "ReadLink"), ("Unknown modified time", "MTime"),
         ("Can't create symlink of unknown kind", "SymlinkKind"), ("Can't delete symlink of unknown type", "SymlinkKind"),
+        ("Not writing file contents", "FailedEarlier"), ("Modified time of", "Pre1970"),
     ];
     for (p, k) in table { if e.starts_with(p) { return k.to_string(); } }
     format!("Other:{}", hexs(e))
